@@ -197,6 +197,27 @@ def load_views_text(text):
                               'variables': dict(s.variables)} for s in c.sections]}}
 
 
+def load_file_struct(kind, path):
+    """The loaders that read from disk, returning the same structure as load_*_text."""
+    from pathlib import Path
+    try:
+        if kind == 'rules':
+            from tally import merchant_engine as me
+            e = me.load_merchants_file(Path(path))
+            return {'ok': {
+                'variables': dict(e.variables), 'transforms': [list(t) for t in e.transforms],
+                'rules': [{'name': r.name, 'match_expr': r.match_expr, 'category': r.category, 'subcategory': r.subcategory,
+                           'merchant': r.merchant, 'tags': sorted(r.tags), 'priority': r.priority,
+                           'let_bindings': [list(b) for b in r.let_bindings], 'fields': dict(r.fields)} for r in e.rules]}}
+        from tally import section_engine as se
+        cfg = se.load_sections(path)
+        return {'ok': {'globals': dict(cfg.global_variables),
+                       'views': [{'name': s.name, 'filter': s.filter_expr, 'description': s.description,
+                                  'variables': dict(s.variables)} for s in cfg.sections]}}
+    except Exception as ex:
+        return {'error': '%s: %s' % (type(ex).__name__, ex)}
+
+
 def load_file_direct(kind, path):
     """The loader's own failure for a stored file (used as the text commands must report)."""
     from pathlib import Path
@@ -264,6 +285,21 @@ def execute(case, scratch):
                 log.append(['layout-most-specific', util.digest(res2)])
                 if res2.get('ok') != f['expected']:
                     res = res2
+            if res.get('ok') == f['expected']:
+                # the same file on disk, under each line-ending style, through the loader that reads files
+                eol_now = '\r\n' if '\r\n' in f['text'] else '\n'
+                for style, eol_ in (('lf', '\n'), ('crlf', '\r\n'), ('cr', '\r')):
+                    data = eol_.join(f['text'].split(eol_now)).encode('utf-8')
+                    util.restore(world, {'f.rules': data})
+                    res3 = in_proc(world, ctlp, lambda: load_file_struct(kind, os.path.join(world, 'f.rules')))
+                    count['layout_checks'] += 1
+                    log.append(['layout-file', kind, style, util.digest(res3)])
+                    if res3.get('ok') != f['expected']:
+                        violations.append({'invariant': 'LAY', 'signature': {'kind': kind, 'outcome': 'file-' + style},
+                                           'witness': 'the %s file written with %s line endings does not load to its model: %s' % (kind, style.upper(), util.canon(res3)[:300]),
+                                           'schedule': {'property': ID, 'case': dict(case, files=[dict(f, corruptions=[], torn=[])], commands=[])}})
+                        break
+                util.restore(world, {})
             if res.get('ok') != f['expected']:
                 violations.append({'invariant': 'LAY', 'signature': {'kind': kind, 'outcome': 'error' if 'error' in res else 'different-structure'},
                                    'witness': 'uncorrupted %s rendering does not parse to its model: got %s' % (kind, util.canon(res)[:400]),
